@@ -27,6 +27,20 @@ THEOREMS = [
     "SleapVerif.C10.identity_preserved_lq_hungarian_partial",
     "SleapVerif.C10.identity_constant",
     "SleapVerif.C10.identity_every_detection_tracked",
+    "SleapVerif.C10.identity_preserved_fw_greedy_iou",
+    "SleapVerif.C10.identity_preserved_lq_greedy_iou",
+    "SleapVerif.C10.identity_preserved_fw_greedy_euclid",
+    "SleapVerif.C10.identity_preserved_lq_greedy_euclid",
+    "SleapVerif.C10.iou_range",
+    "SleapVerif.C10.iou_symm",
+    "SleapVerif.C10.iou_self_is_one_degenerate",
+    "SleapVerif.C10.iou_disjoint_zero",
+    "SleapVerif.C10.bbox_wellformed",
+    "SleapVerif.C10.iou_dominance",
+    "SleapVerif.C10.euclid_triangle",
+    "SleapVerif.C10.euclid_dominance",
+    "SleapVerif.C10.iou_scene_class",
+    "SleapVerif.C10.euclid_scene_class",
     "SleapVerif.C10.window_purity_step_fw",
     "SleapVerif.C10.window_purity_step_lq",
     "SleapVerif.C10.reduction_preserves_dominance",
@@ -132,6 +146,89 @@ def gen_fast_small(rng, cfg=None):
                     dets.reverse()
         frames.append(dets)
     return {"cfg": cfg, "frames": frames, "family": "fast_small"}
+
+
+def gen_degenerate(rng, cfg=None):
+    """Scene family `degenerate_iou` (seeded C10-r2m1): bboxes + iou with poses whose bounding box
+    has zero width or height (collinear keypoints with identical x or y) or is a single point (one
+    visible keypoint).  Thin animals only move along their long axis (a 1-px-thick box must keep
+    overlapping itself), single-keypoint animals by at most 1/16 px per frame; everybody ≥ 60 px apart."""
+    iou = [c for c in all_configs() if c["scoring_method"] == "iou"]
+    cfg = dict(cfg or rng.choice(iou))
+    W = rng.choice([1, 2, 3, 5])
+    cfg["window_size"] = W
+    cfg["instance_score_threshold"] = rng.choice([0.0, 0.5])
+    K = rng.choice([2, 2, 3, 4])
+    F = rng.randint(3, 10)
+    poses = [rng.choice(c09.DEGENERATE + ["tri"]) for _ in range(K)]
+    poses[0] = rng.choice(c09.DEGENERATE)
+    poses[1] = rng.choice(c09.DEGENERATE)
+    rng.shuffle(poses)
+    slots = [(60.0 * i, 60.0 * j) for i in range(3) for j in range(2)]
+    rng.shuffle(slots)
+    pos = [[slots[a][0] + rng.randrange(0, 32) / 16, slots[a][1] + rng.randrange(0, 32) / 16] for a in range(K)]
+    size = [16 + 4 * (a % 3) for a in range(K)]
+    arrive = sorted(rng.choice([0, 0, rng.randint(0, F - 1)]) for _ in range(K))
+    arrive[0] = 0
+    absent = [0] * K
+    known = set()
+    frames = []
+    for f in range(F):
+        for a in range(K):
+            dx, dy = rng.randrange(-8, 9) / 16, rng.randrange(-8, 9) / 16
+            if poses[a] == "hline":
+                dy = 0.0
+            elif poses[a] == "vline":
+                dx = 0.0
+            elif poses[a] == "single":
+                dx, dy = rng.randrange(-1, 2) / 16, rng.randrange(-1, 2) / 16
+            pos[a][0] += dx
+            pos[a][1] += dy
+        newcomers = [a for a in range(K) if a not in known and arrive[a] <= f]
+        present = set()
+        if newcomers:
+            present = set(known) | set(newcomers)
+        else:
+            for a in known:
+                if absent[a] + 1 <= W - 1 and rng.random() < 0.25:
+                    continue
+                present.add(a)
+        if known and not present:
+            present = set(known)
+        dets = [[pos[a][0], pos[a][1], 0.9, a, size[a], poses[a]] for a in sorted(present)]
+        rng.shuffle(dets)
+        frames.append(dets)
+        if dets:
+            for a in known:
+                absent[a] = 0 if a in present else absent[a] + 1
+            for a in newcomers:
+                known.add(a)
+                absent[a] = 0
+    return {"cfg": cfg, "frames": frames, "family": "degenerate_iou"}
+
+
+def gen_circle(rng, cfg=None, laps_frames=100):
+    """Scene family `circle` (seeded C10-r2m3): animals at opposite ends of a circle of radius 100 px
+    walk around it (4.5° ≈ 7.9 px per frame) for more than a full lap, so each one walks over ground
+    another one covered ≥ 40 frames earlier — far outside every window — while all animals stay
+    ≥ 170 px apart on every frame.  Detections in random order."""
+    import math
+    cfg = dict(cfg or rng.choice(all_configs()))
+    cfg["window_size"] = rng.choice([2, 3, 5])
+    cfg["instance_score_threshold"] = 0.0
+    K = rng.choice([2, 2, 3])
+    phase0 = rng.randrange(0, 360)
+    frames = []
+    for f in range(laps_frames):
+        dets = []
+        for a in range(K):
+            ang = math.radians(phase0 + 360.0 * a / K + 4.5 * f)
+            x = round((200.0 + 100.0 * math.cos(ang)) * 16) / 16
+            y = round((200.0 + 100.0 * math.sin(ang)) * 16) / 16
+            dets.append([x, y, 0.9, a, 24])
+        rng.shuffle(dets)
+        frames.append(dets)
+    return {"cfg": cfg, "frames": frames, "family": "circle"}
 
 
 # --------------------------------------------------------------------------- ground-truth oracle
@@ -307,6 +404,18 @@ def main(chk):
         cases.append(gen_fast_small(chk.rng, cfg=cfg))
     for _ in range(chk.n(100, 1200)):
         cases.append(gen_fast_small(chk.rng))
+    # degenerate boxes (seeded C10-r2m1): every iou configuration once, then random
+    for cfg in [c for c in all_configs() if c["scoring_method"] == "iou"]:
+        cases.append(gen_degenerate(chk.rng, cfg=cfg))
+    for _ in range(chk.n(60, 800)):
+        cases.append(gen_degenerate(chk.rng))
+    # long revisiting trajectories (seeded C10-r2m3): local_queues + mean in every matcher / feature
+    # combination, plus a few random configurations
+    for cfg in [c for c in all_configs() if c["candidates_method"] == "local_queues"
+                and c["scoring_reduction"] == "mean"]:
+        cases.append(gen_circle(chk.rng, cfg=cfg))
+    for _ in range(chk.n(2, 40)):
+        cases.append(gen_circle(chk.rng))
     runs, lines, spans = [], [], []
     for case in cases:
         frames = run_impl(case)
@@ -315,6 +424,16 @@ def main(chk):
         lines += ls
         runs.append(frames)
     outs = run_driver("C09.lean", lines)
+    # modelled feature extraction / scores (exact at Rat) vs what the implementation computed
+    flines, fmeta, fspans = [], [], []
+    for case, frames in zip(cases, runs):
+        ls, ms = c09.feature_score_lines(case, frames, max_scores=60)
+        fspans.append((len(flines), len(ls)))
+        flines += ls
+        fmeta += ms
+    fouts = run_driver("C09.lean", flines)
+    for case, (o, n) in zip(cases, fspans):
+        c09.compare_features(chk, case, fmeta[o:o + n], fouts[o:o + n])
     margins = []
     for case, frames, (o, n) in zip(cases, runs, spans):
         mo = [parse_model(x) for x in outs[o + 1:o + n]]
@@ -364,7 +483,8 @@ if __name__ == "__main__":
         "C10", module="SleapVerif.Props.C10", theorems=THEOREMS,
         build_targets=["SleapVerif.Model.Tracker", "SleapVerif.Lemmas.Tracker", "SleapVerif.Lemmas.TrackerInv",
                        "SleapVerif.Lemmas.TrackerIdentity", "SleapVerif.Lemmas.TrackerOwner",
-                       "SleapVerif.Lemmas.TrackerHistory"],
+                       "SleapVerif.Lemmas.TrackerHistory", "SleapVerif.Model.TrackFeatures",
+                       "SleapVerif.Lemmas.TrackFeatures"],
         trusted=[
             "Lean 4.33 kernel + Mathlib (ordered fields, WithTop); axioms ⊆ {propext, Classical.choice, Quot.sound}",
             "model SleapVerif.Tracker tied to /repo by the same per-frame correspondence as C09",
@@ -373,6 +493,9 @@ if __name__ == "__main__":
             "Hungarian theorems, validated per recorded call, not proved)",
             "the scene-class hypotheses (FW.InClass / LQ.InClass: separation, no stale track, purity-derived "
             "dominance) are measured per frame on the recorded scores and the real queue",
+            "get_bbox / get_centroid / compute_iou / compute_euclidean_distance are modelled (Model/TrackFeatures.lean, "
+            "iou = C15's definition) and compared per call with the implementation (features exactly, scores to 1e-9); "
+            "compute_oks is recorded only (oks_dominance is stated, not proved)",
             "float evaluation of oks / iou / distance keeps the separation margin positive (measured: min margin in evidence)",
         ],
         rule="scene = configuration × per-frame ordered presence pattern of ≤ 4 separated animals; distinct = "
